@@ -566,27 +566,15 @@ func dischargeBounds0(w *World, c *simCtx, fn *ssa.Function, p *Path, e *Event) 
 		}
 	}
 	// recorder arrays: made with the core size in the constructor, never replaced
-	if b := stripConv(base); b.Op == "sel" && b.A[0].Op == "deref" && typeName(b.A[0].A[0].Ty) == "*StateRecorder" {
+	if rm, ok := resolveRecorder(w); ok && rm.arrayKind(base) != "" {
 		ix := stripConv(idx)
-		sizeOK := func(t *T) bool {
-			t = stripConv(t)
-			return t.Op == "sel" && t.A[0].Op == "deref" && typeName(t.Ty) == "Address"
-		}
 		switch {
-		case ix.Op == "rem" && sizeOK(ix.A[1]):
+		case ix.Op == "rem" && rm.isSize(ix.A[1]):
 			return true, "i % coresize into an array of coresize elements"
-		case ix.Op == "loopvar" && hasCond(p, func(a *T, v bool) bool { return a.Op == "lt" && v && sameTerm(a.A[0], ix) && sizeOK(a.A[1]) }):
+		case ix.Op == "loopvar" && hasCond(p, func(a *T, v bool) bool { return a.Op == "lt" && v && sameTerm(a.A[0], ix) && rm.isSize(a.A[1]) }):
 			return true, "loop variable < coresize"
 		case hasCond(p, func(a *T, v bool) bool {
-			if a.Op != "lt" || !v || !sameTerm(a.A[0], ix) {
-				return false
-			}
-			l := stripConv(a.A[1])
-			if l.Op != "len" {
-				return false
-			}
-			sib := stripConv(l.A[0])
-			return sib.Op == "sel" && sib.A[0].Op == "deref" && typeName(sib.A[0].A[0].Ty) == "*StateRecorder"
+			return a.Op == "lt" && v && sameTerm(a.A[0], ix) && stripConv(a.A[1]).Op == "len" && rm.isSize(a.A[1])
 		}) && nonNegative(w, ix, p):
 			return true, "0 <= i < len of a recorder array (all recorder arrays are made with the core size and never replaced)"
 		case ix.Op == "sel" && ix.S == "Address" && ix.A[0].Op == "p":
